@@ -326,6 +326,11 @@ Definition env_find (E : envt) (n : str) : option str :=
             end
   end.
 
+(** all entries token |-> value of the environment, and the entry an item defines *)
+Definition env_entries (E : envt) : table := e_labels E ++ e_deps E ++ e_subs E.
+Definition item_entry (it : env_item) : entry :=
+  match it with EVar n v _ => (tok n, v) | EDep n v => (tok n, v) end.
+
 (** [apply_environment]: labels, then dependencies, then substitutions. *)
 Definition env_pass (m : mode) (E : envt) (x : str) : str :=
   match x with
@@ -599,11 +604,23 @@ Definition pre_list (m : mode) (c : case) : list pre :=
 Record desc : Type := {
   d_step : step;                (* environment applied, parameters not yet *)
   d_row : option nat;           (* the parameter row, [None] for an unparameterised step *)
+  d_used : list str;            (* used_params of the step (sorted keys) *)
+  d_refs : list str;            (* steps whose workspace the step refers to *)
   d_name : str;                 (* instance name *)
   d_ws : str;                   (* own workspace *)
   d_caps : list str;            (* used_spaces of the step *)
   d_dirs : list (str * str)     (* every known step -> the directory its workspace token denotes here *)
 }.
+
+(** [d'] is an instance of some step for the combination that instance [d]
+    belongs to: it is unparameterised, or its row carries the same labels as
+    [d]'s row for the parameters it uses (the same row in particular). *)
+Definition same_combo (ps : list param) (d d' : desc) : bool :=
+  match d_row d', d_row d with
+  | None, _ => true
+  | Some i', Some i => str_eqb (combo_string ps i (d_used d')) (combo_string ps i' (d_used d'))
+  | Some _, None => false
+  end.
 
 Definition used_of (used : list (str * list str)) (n : str) : list str :=
   match find (fun e => str_eqb n (fst e)) used with
@@ -657,7 +674,7 @@ Definition step_descs (root : str) (ps : list param) (used : list (str * list st
   let hubs := hub_of st in
   let known := map fst used in
   let mk (row : option nat) : desc :=
-    {| d_step := st; d_row := row;
+    {| d_step := st; d_row := row; d_used := u; d_refs := pr_refs p;
        d_name := iname ps (s_name st) u row;
        d_ws := own_ws root ps (s_name st) u row;
        d_caps := pr_caps p;
